@@ -65,6 +65,16 @@ func dlPlain(kind string, l int, seed uint64) []byte {
 	case "dlnas":
 		psi := byte(1 + r.Intn(15))
 		return nas.DLNASTransport(r.Bytes(1+l), &psi, nil)
+	case "authresult": // AUTHENTICATION RESULT: ngKSI, EAP message (LV-E), TS 24.501 8.2.3
+		return []byte{0x7e, 0x00, 0x5a, byte(r.Intn(7)), 0x00, 0x04, 0x03, byte(r.Intn(256)), 0x00, 0x04}
+	case "authreject": // AUTHENTICATION REJECT, no optional IE
+		return []byte{0x7e, 0x00, 0x58}
+	case "idreq": // IDENTITY REQUEST: identity type
+		return []byte{0x7e, 0x00, 0x5b, byte(1 + r.Intn(5))}
+	case "svcreject": // SERVICE REJECT: 5GMM cause
+		return []byte{0x7e, 0x00, 0x4d, byte(r.Pick(9, 10, 22, 28, 111))}
+	case "regreject": // REGISTRATION REJECT: 5GMM cause
+		return []byte{0x7e, 0x00, 0x44, byte(r.Pick(3, 7, 11, 22, 111))}
 	}
 	return nas.DeregistrationAccept()
 }
@@ -87,6 +97,11 @@ func runDLHistory(hi int, h hmap) {
 	ue := tglib.NewRanUeContext("imsi-001010000000001", 1, nea, nia)
 	ue.KnasEnc, ue.KnasInt = key16(str(h, "kenc")), key16(str(h, "kint"))
 	kenc, kint := ue.KnasEnc[:], ue.KnasInt[:]
+	if a, _ := h["authenticated"].(bool); a {
+		// the context of a UE that has run the AKA: K_AMF is present, as after DeriveRESstarAndSetKey
+		ue.Kamf = make([]byte, 32)
+		copy(ue.Kamf, kint)
+	}
 	// the sender's next downlink COUNT; the UE starts in step with it
 	next := uint32(num(h, "start_overflow", 0))<<8 | uint32(num(h, "start_sqn", 0))
 	ue.DLCount.Set(uint16(next>>8), uint8(next))
@@ -127,8 +142,11 @@ func runDLHistory(hi int, h hmap) {
 		if sht == 0 {
 			pkg = plain
 		} else {
-			if retx, _ := op["retx"].(bool); (sht == 3 || sht == 4) && !retx {
-				next = 0 // the AMF takes the new context into use; a retransmission of that message (retx) goes on counting
+			if retx, _ := op["retx"].(bool); (sht == 3 || sht == 4) && (!retx || next > 200) {
+				// the AMF takes the new context into use; a retransmission of that message (retx) goes on
+				// counting - but not beyond what a receiver that missed the original could follow: after
+				// 200 messages without an answer the AMF starts the context afresh
+				next = 0
 			}
 			count = next
 			inner := plain
